@@ -117,6 +117,10 @@ read_pbm_integer(j_compress_ptr cinfo, FILE *infile, unsigned int maxval)
       ERREXIT(cinfo, JERR_PPM_OUTOFRANGE);
   }
 
+  /* A single-digit value never enters the loop above. */
+  if (val > maxval)
+    ERREXIT(cinfo, JERR_PPM_OUTOFRANGE);
+
   return val;
 }
 
